@@ -395,11 +395,28 @@ class ProgGen(object):
             self.tags.add("arc_rel")
         rad = r.choice([2.0, 3.5, 5.0, 9.0, 14.0])
         a0 = r.uniform(0, 2 * math.pi)
-        cx, cy = self.x - rad * math.cos(a0), self.y - rad * math.sin(a0)
         sw = r.uniform(0.3, 5.8)
         cw = r.random() < 0.5
+        omit = None
+        q = r.random()
+        if q < 0.12:
+            # full circle: no X/Y words at all
+            omit = "XY"
+            sw = 2 * math.pi
+        elif q < 0.3:
+            # half circle about a centre straight above/below or left/right: one coordinate is unchanged and its word omitted
+            a0 = r.choice([0.0, math.pi / 2, math.pi, 3 * math.pi / 2])
+            sw = math.pi
+            omit = "Y" if a0 in (0.0, math.pi) else "X"
+        cx, cy = self.x - rad * math.cos(a0), self.y - rad * math.sin(a0)
         a1 = a0 - sw if cw else a0 + sw
         ex, ey = cx + rad * math.cos(a1), cy + rad * math.sin(a1)
+        if omit == "XY":
+            ex, ey = self.x, self.y
+        elif omit == "Y":
+            ey = self.y
+        elif omit == "X":
+            ex = self.x
         if self.f.get("avoid") and self.regs:
             n = int(rad * sw / 0.05) + 2
             for q in range(n + 1):
@@ -409,10 +426,17 @@ class ProgGen(object):
         nd = self.nd()
         wi = fmt((cx - self.x) / self.unit, nd)
         wj = fmt((cy - self.y) / self.unit, nd)
-        wx, nx = self.coord("X", ex)
-        wy, ny = self.coord("Y", ey)
-        self.x, self.y = nx, ny
-        parts = [wx, wy, "I" + wi, "J" + wj]
+        parts = []
+        if not (omit and "X" in omit):
+            wx, self.x = self.coord("X", ex)
+            parts.append(wx)
+        if not (omit and "Y" in omit):
+            wy, self.y = self.coord("Y", ey)
+            parts.append(wy)
+        parts += ["I" + wi, "J" + wj]
+        if omit and r.random() < 0.5:
+            # a zero offset word may be left out as well
+            parts = [w for w in parts if not (w[0] in "IJ" and float(w[1:]) == 0.0)] or parts
         if r.random() < 0.8:
             we, self.e = self.eword(self.e + round(0.04 * rad * sw, 4))
             parts.append(we)
